@@ -1,6 +1,7 @@
 SPECIFICATION Spec
 CONSTANTS
   MaxLen = 2
+  AttrMaxLen = 2
   Alphabet = {120, 60, 38, 62, 93, 34, 39, 9, 10, 13, 233, 128512}
   Dump = FALSE
 INVARIANTS InDomainAlways
